@@ -323,6 +323,9 @@ func genC07(cfg Config, emit Emit) error {
 		nu = 4000
 	}
 	genWire(cfg, emit, 0, nu)
+	for k := 0; k < 2; k++ {
+		emit("rsastrip", []string{itoa(k)}, "sig-strip-leading-zero/rs", true)
+	}
 	return nil
 }
 
